@@ -1,0 +1,80 @@
+//go:build verif
+
+// Contracts for the fvc verification-condition generator in /verif (comment-only file).
+// C07 "zero-annotation" safety sweep (round B): functions of ctx.go / redirect.go that a request handler can call, that
+// contain loops or index / slice / type-assertion expressions and had NO contract (or had their safety switched off).
+// A contract without clauses already yields the safety obligations of the body (index and slice bounds, division, failed
+// type assertion, explicit panic); what is added by hand: termination measures for the counted loops, `safety nil` where
+// a Go map is written (a write to a nil map panics), the lock discipline of SendFile, and the few facts the obligations need.
+
+package fiber
+
+//@ props C07
+
+// Context(): comma-ok assertion (cannot panic); a missing user context is replaced by the background context.
+//@ func (*DefaultCtx).Context
+//@ func (*DefaultCtx).SetContext
+
+// Locals(key, value...): value[0] only behind len(value) != 0.
+//@ func (*DefaultCtx).Locals
+//@   ensures stores-and-returns-the-value: len(value) > 0 ==> result == value[0]
+
+// SendStream(stream, size...): size[0] only behind len(size) > 0; cannot fail.
+//@ func (*DefaultCtx).SendStream
+//@   atcall @fasthttp.(*Response).SetBodyStream: size-as-given-or-unknown: bodySize == ite(len(size) > 0 && size[0] >= 0, size[0], -1)
+//@   ensures never-fails: result == nil
+
+// String(): the padding loop runs 16 - len(id) times (not at all for an id of 16 or more digits).
+//@ func (*DefaultCtx).String
+//@   loop 1
+//@     invariant counts-up: 0 <= i
+//@     decreases 16 - len(id) - i
+
+// ViewBind(vars): copies the entries into the context's sync.Map (no Go map is written); cannot fail.
+//@ func (*DefaultCtx).ViewBind
+//@   ensures never-fails: result == nil
+
+// getLocationFromRoute(route, params): key[0] only behind len(key) == 1; the outer loop runs once per segment.
+//@ func (*DefaultCtx).getLocationFromRoute
+//@   loop 1
+//@     decreases len(route.routeParser.segs) - rangeindex
+
+// renderExtensions(bind): fills a Map handed in by the handler. The two visitor closures WRITE the Go map: a typed nil
+// Map inside the interface value (`var m fiber.Map; c.Render(name, m)`) would panic at the first write - nil-map-write
+// obligations are switched on for them (safety nil) and need the map to exist.
+//@ func (*App).generateAppListKeys
+//@   modifies mountFields.appListKeys, heap(E_string)
+//@ func (*DefaultCtx).renderExtensions
+//@   requires typed-nil-map-excluded: typeis(bind, Map) ==> unbox(bind, Map) != nil
+//@   atcall @sync.(*Map).Range: map-exists-when-the-visitor-writes-it: bindMap != nil
+//@   atcall @fasthttp.(*RequestCtx).VisitUserValues: map-exists-when-the-visitor-writes-it: bindMap != nil
+//@   modifies heap(MD_string_any), heap(MV_string_any), mountFields.appListKeys, heap(E_string)
+//@   modifies heap(C_fiber_Map), heap(C_p_fiber_DefaultCtx)   // generator artefact: the cells of the two variables the visitor closures capture
+//@ func (*DefaultCtx).renderExtensions$1
+//@   safety nil
+//@   requires map-exists: bindMap != nil
+//@   modifies heap(MD_string_any), heap(MV_string_any)
+//@   ensures visits-every-entry: result
+//@ func (*DefaultCtx).renderExtensions$2
+//@   safety nil
+//@   requires map-exists: bindMap != nil
+//@   requires bound-context: c != nil && c.app != nil
+//@   modifies heap(MD_string_any), heap(MV_string_any)
+
+// Render(name, bind, layouts...): the mount list is scanned from the end, index in range, terminates.
+//@ func (*DefaultCtx).Render
+//@   requires wf-immutable: wfImmutable(c)
+//@   loop 1
+//@     invariant index-in-range: -1 <= i && i < len(c.app.mountFields.appListKeys)
+//@     invariant wf-immutable-kept: wfImmutable(c)
+//@     decreases i + 1
+
+// SendFile(file, config...): config[0] only behind len(config) > 0, file[len(file)-1] only behind len(file) > 0; the
+// store of file handlers is read under the read lock and extended under the write lock, each released again.
+//@ func (*DefaultCtx).SendFile
+//@   requires wf-immutable: wfImmutable(c)
+//@   requires store-unlocked: !held(c.app.sendfilesMutex)
+//@   loop 1
+//@     decreases len(c.app.sendfiles) - rangeindex
+// (that the store is unlocked again at every return is checked at the two Unlock calls - obligations lock:release-held -
+// and cannot be restated as a postcondition: the file handler of fasthttp.FS, unknown code, runs in between)
